@@ -470,7 +470,10 @@ class ScaledInteger(HasUnit, DataType):
     def import_value(self, value):
         """returns a python object from serialisation"""
         try:
-            return self.scale * int(value)
+            intval = int(value)
+            if isinstance(value, str) or intval != value:
+                raise ValueError('not an integer')
+            return self.scale * intval
         except Exception:
             raise WrongTypeError(f'can not import {shortrepr(value)} to scaled') from None
 
